@@ -155,7 +155,7 @@ func evalTree(rp *reporter, n *node, viaOption bool, levels []int8, st *treeStat
 					if !fe.applies(l) || isCore != (pass == 0) || (viaOption && isCore) {
 						continue
 					}
-					lazyCase := n.hasLazy && disabled && l < lDPanic && !isCore
+					lazyCase := n.hasLazy && disabled && l < lDPanic && !isCore && !fe.noWrite
 					if lazyCase && touched {
 						nt, ok2 := mkTree(rp, n, viaOption)
 						if !ok2 {
@@ -167,7 +167,7 @@ func evalTree(rp *reporter, n *node, viaOption bool, levels []int8, st *treeStat
 						t, touched = nt, false
 					}
 					tt := t
-					ci := callInfo{part: "trees", fe: fe.name, family: fe.family, field: fe.field, msg: feMsg[fi], ctx: variant}
+					ci := callInfo{part: "trees", fe: fe.name, family: fe.family, field: fe.field, noWrite: fe.noWrite, msg: feMsg[fi], ctx: variant}
 					if !isCore {
 						ci.lc = tt.log.Core()
 					}
